@@ -5,6 +5,7 @@ CONSTANTS
   Urgent = TRUE
   Guard = TRUE
   SS = TRUE
+  Exp = {}
   Pushes = TRUE
 INVARIANTS WitPushPub
 CHECK_DEADLOCK FALSE
